@@ -2184,3 +2184,127 @@ Proof.
   - destruct n as [|l]; [reflexivity|]. rewrite (attempts_closed_eq _ l 0%nat). f_equal. lia.
   - rewrite (attempts_closed_eq _ 0%nat 0%nat). reflexivity.
 Qed.
+
+(* ===== part P: closed-form request count; single-page acceptor against the loop-free spec ===== *)
+Lemma find_map_S (f : nat -> bool) l :
+  find f (map S l) = option_map S (find (fun i => f (S i)) l).
+Proof.
+  induction l as [|x l IH]; cbn [map find option_map]; [reflexivity|].
+  destruct (f (S x)); [reflexivity|exact IH].
+Qed.
+
+Lemma find_ext' {A} (f g : A -> bool) l : (forall x, f x = g x) -> find f l = find g l.
+Proof. intros H. induction l as [|x l IH]; cbn [find]; [reflexivity|]. rewrite H, IH. reflexivity. Qed.
+
+Lemma ends_here_shift f fs spare used i :
+  ends_here (f :: fs) spare used (S i) =
+  ends_here fs spare (used + (if fault_advances f then 1 else 0)) i.
+Proof. unfold ends_here. rewrite ends_at_shift. reflexivity. Qed.
+
+Lemma requests_closed_cons f fs spare used :
+  requests_closed (f :: fs) spare used =
+  if ends_here (f :: fs) spare used 0
+  then match f with FConnFail => 0%nat | _ => 1%nat end
+  else ((if fault_sent f then 1 else 0) +
+        requests_closed fs spare (used + (if fault_advances f then 1 else 0)))%nat.
+Proof.
+  unfold requests_closed. cbn [List.length seq find].
+  destruct (ends_here (f :: fs) spare used 0) eqn:E0.
+  - cbn [firstn filter List.length nth_error Nat.add]. reflexivity.
+  - rewrite <- seq_shift, find_map_S.
+    rewrite (find_ext' _ (ends_here fs spare (used + (if fault_advances f then 1 else 0))) _
+               (fun i => ends_here_shift f fs spare used i)).
+    destruct (find _ (seq 0 (List.length fs))) as [j|]; cbn [option_map].
+    + cbn [firstn filter nth_error]. destruct (fault_sent f); cbn [List.length]; lia.
+    + cbn [filter]. destruct (fault_sent f); cbn [List.length]; lia.
+Qed.
+
+Theorem attempts_count : forall fs resp t rest used,
+  List.length (fst (attempts fs resp t rest)) = requests_closed fs (List.length rest + used) used.
+Proof.
+  induction fs as [|f fs IH]; intros resp t rest used; [reflexivity|].
+  rewrite requests_closed_cons. unfold ends_here, ends_at. cbn [nth_error firstn filter List.length].
+  rewrite Nat.add_0_r.
+  destruct f as [|e d| |]; cbn [attempts terminal fault_advances fault_sent andb].
+  - destruct rest as [|t' rest']; cbn [List.length Nat.add].
+    + rewrite Nat.leb_refl. reflexivity.
+    + replace (Nat.leb (S (List.length rest' + used)) used) with false by (symmetry; apply Nat.leb_gt; lia).
+      rewrite (IH resp t' rest' (used + 1)%nat). cbn [Nat.add]. f_equal. lia.
+  - destruct d; cbn [terminal fault_advances andb].
+    + destruct (attempts fs resp t rest) as [l r] eqn:E. cbn [fst List.length].
+      replace (used + 0)%nat with used by lia.
+      pose proof (IH resp t rest used) as H. rewrite E in H. cbn [fst] in H. rewrite H.
+      cbn [Nat.add]. reflexivity.
+    + destruct rest as [|t' rest']; cbn [List.length Nat.add fst].
+      * rewrite Nat.leb_refl. reflexivity.
+      * replace (Nat.leb (S (List.length rest' + used)) used) with false by (symmetry; apply Nat.leb_gt; lia).
+        destruct (attempts fs resp t' rest') as [l r] eqn:E. cbn [fst List.length].
+        pose proof (IH resp t' rest' (used + 1)%nat) as H. rewrite E in H. cbn [fst] in H. rewrite H.
+        cbn [Nat.add]. f_equal. f_equal. lia.
+    + reflexivity.
+    + reflexivity.
+  - reflexivity.
+  - destruct (attempts fs resp t rest) as [l r] eqn:E. cbn [fst List.length].
+    replace (used + 0)%nat with used by lia.
+    pose proof (IH resp t rest used) as H. rewrite E in H. cbn [fst] in H. rewrite H.
+    cbn [Nat.add]. reflexivity.
+Qed.
+
+(* page level: with plans that enumerate the nodes, the number of requests a page needs is the
+   closed-form count over n-1 spare targets *)
+Theorem fetch_count nodes stable ps : NoDup nodes -> page_ok nodes ps -> stable_ok MSession nodes stable ->
+  nodes <> [] ->
+  List.length (fst (fetch_one MSession stable ps)) =
+  requests_closed (ps_faults ps) (List.length nodes - 1) 0.
+Proof.
+  intros Hn Hp Hs Hne. destruct Hs as [?|Hs]; [discriminate|].
+  destruct (eff_plan_nodes nodes stable ps Hn Hp Hs) as [Hl _]. cbn [fetch_one].
+  destruct (eff_plan stable (ps_plan ps)) as [|t rest]; cbn [List.length] in Hl.
+  - destruct nodes; [contradiction|discriminate].
+  - rewrite (attempts_count _ _ t rest 0%nat). f_equal; lia.
+Qed.
+
+(* the single-page acceptor against the loop-free specification: every request carries the
+   caller's state; the caller gets, exactly once, the result or the error the closed form says;
+   the server sees the closed-form number of requests; the nodes obey the plan rules *)
+Theorem accept_single_sound_closed nodes st ps obs ok nodes_ :
+  accept_single st ps obs ok nodes_ = true -> NoDup nodes -> page_ok nodes ps -> nodes <> [] ->
+  prop_single_ok st ok = true /\
+  obs = sres_of (spec_page_closed MSession (List.length nodes) ps) /\
+  List.length ok = requests_closed (ps_faults ps) (List.length nodes - 1) 0 /\
+  follows (ps_faults ps) None [] nodes_ = true.
+Proof.
+  intros H Hn Hp Hne. destruct (accept_single_sound _ _ _ _ _ H) as (H1 & H2 & H3 & H4).
+  repeat split; try assumption.
+  - rewrite H2, <- spec_page_closed_eq.
+    destruct (single_thm nodes st ps Hn Hp) as [_ S]. unfold single_expected in S.
+    destruct (spec_page MSession (List.length nodes) ps) as [[rows next| |]|e|e]; cbn [sres_of].
+    + destruct S as [c ->]. reflexivity.
+    + destruct S as [c ->]. reflexivity.
+    + destruct S as [c ->]. reflexivity.
+    + rewrite S. reflexivity.
+    + destruct S as [c ->]. reflexivity.
+  - rewrite H3. apply fetch_count; try assumption. right. exact I.
+Qed.
+
+(* coordinator stability, tightened: the model's pages have exactly the closed-form number of
+   requests -- a RetryNextTarget / unavailable connection is followed by another attempt exactly
+   while a spare target remains; a page's requests end early only when the plan has run out *)
+Theorem targets_count nodes : NoDup nodes -> nodes <> [] -> forall script stable,
+  Forall (page_ok nodes) script -> stable_ok MSession nodes stable ->
+  map (@List.length N) (worker_targets stable script) =
+  map (fun ps => requests_closed (ps_faults ps) (List.length nodes - 1) 0)
+      (firstn (List.length (worker_targets stable script)) script).
+Proof.
+  intros Hn Hne. induction script as [|ps rest IH]; intros stable Hf Hs; [reflexivity|].
+  inversion Hf as [|? ? Hp Hf']; subst. cbn [worker_targets].
+  pose proof (fetch_count nodes stable ps Hn Hp Hs Hne) as C.
+  pose proof (fetch_spec MSession nodes stable ps Hn Hp Hs) as F.
+  destruct (fetch_one MSession stable ps) as [ts r] eqn:E. cbn [fst] in C.
+  destruct r as [c [rows [st'|]| |]|c|e]; cbn [List.length firstn map]; try (rewrite C; reflexivity).
+  rewrite C. f_equal. apply IH; [exact Hf'|].
+  destruct (spec_page MSession (List.length nodes) ps) as [r|e|e].
+  - destruct F as (ts' & c' & E' & Hs'). injection E' as _ <- _. exact Hs'.
+  - destruct F as (ts' & E'). discriminate.
+  - destruct F as (ts' & c' & E'). discriminate.
+Qed.
